@@ -108,6 +108,7 @@ func (in *Interp) visitInstr(fr *frame, instr ssa.Instruction) continuation {
 	case *ssa.DebugRef:
 
 	case *ssa.UnOp:
+		in.curFrame = fr
 		fr.env[instr] = in.unop(instr, fr.get(instr.X))
 
 	case *ssa.BinOp:
@@ -174,7 +175,7 @@ func (in *Interp) visitInstr(fr *frame, instr ssa.Instruction) continuation {
 		panic(targetPanic{fr.get(instr.X)})
 
 	case *ssa.Send:
-		panic(unsupported("channel send"))
+		in.chanSend(fr, fr.get(instr.Chan), fr.get(instr.X))
 
 	case *ssa.Store:
 		addr := fr.get(instr.Addr)
@@ -184,6 +185,7 @@ func (in *Interp) visitInstr(fr *frame, instr ssa.Instruction) continuation {
 			panic(fmt.Sprintf("store through %T", addr))
 		}
 		in.writeBarrier(p)
+		in.raceWrite(p, fr)
 		store(deref(instr.Addr.Type()), p, fr.get(instr.Val))
 
 	case *ssa.If:
@@ -209,13 +211,14 @@ func (in *Interp) visitInstr(fr *frame, instr ssa.Instruction) continuation {
 		*defers = &deferred{fn: fn, args: args, instr: instr, tail: *defers}
 
 	case *ssa.Go:
-		panic(unsupported("go statement (goroutines are outside the encoding)"))
+		fn, args := in.prepareCall(fr, &instr.Call)
+		in.goStmt(fr, fn, args, instr.Pos())
 
 	case *ssa.MakeChan:
-		panic(unsupported("make(chan)"))
+		fr.env[instr] = in.makeChan(fr.get(instr.Size))
 
 	case *ssa.Select:
-		panic(unsupported("select"))
+		fr.env[instr] = in.selectStmt(fr, instr)
 
 	case *ssa.Alloc:
 		var addr *Value
@@ -722,7 +725,8 @@ func (in *Interp) callBuiltin(caller *frame, callpos token.Pos, fn *ssa.Builtin,
 		return mkInt(uint64(n), 64)
 
 	case "close":
-		panic(unsupported("close(chan)"))
+		in.chanClose(caller, args[0])
+		return nil
 
 	case "delete":
 		m := args[0].(*Map)
@@ -770,7 +774,10 @@ func (in *Interp) callBuiltin(caller *frame, callpos token.Pos, fn *ssa.Builtin,
 		case *Map:
 			return mkInt(uint64(x.Len()), 64)
 		case *Chan:
-			return mkInt(0, 64)
+			if x == nil {
+				return mkInt(0, 64)
+			}
+			return mkInt(uint64(len(x.buf)), 64)
 		default:
 			panic(fmt.Sprintf("len: illegal operand: %T", x))
 		}
